@@ -27,7 +27,7 @@ ASSUMPTIONS = [
     "dict keys / set members that are == but of different type (1, 1.0, True) never share a container",
 ]
 SHARDS = {"quick": 10, "thorough": 14}
-FLOORS = {"quick": {"values_compared": 1800, "processes_per_value": 4, "digest_pairs_discriminated": 1500},
+FLOORS = {"quick": {"values_compared": 1800, "processes_per_value": 4, "digest_pairs_discriminated": 1200},
           "thorough": {"values_compared": 25000, "processes_per_value": 8, "digest_pairs_discriminated": 22000}}
 
 HASHSEEDS = ["0", "1", "2", "random", "12345", "4294967295", "random", "7"]
